@@ -617,6 +617,8 @@ def finalize_oracle(res):
                  why_not=lambda p: res["reasons"].get(p, "never-written-by-a-step"))
     if res["queue_left"]:
         out.append(("own:finalize:queue-left", str(res["queue_left"])))
+    if sorted(res["removed_events"]) != gone:
+        out.append(("own:finalize:remove-events-differ-from-what-vanished", f"events {res['removed_events']} vanished {gone}"))
     return out
 
 
